@@ -33,7 +33,7 @@ ALPHA = SINGLES + MACROS
 # (start state, last start tag, cdata allowed)
 CONFIGS = [("data", None, False), ("data", None, True), ("rcdata", "a", False), ("rcdata", "xa", False), ("rcdata", None, False),
            ("rawtext", "a", False), ("rawtext", "script", True), ("script_data", "script", False), ("script_data", "a", False),
-           ("script_data", None, True), ("plaintext", None, False), ("data", "a", False)]
+           ("script_data", None, True), ("plaintext", None, False), ("data", "a", False), ("data", None, "nons")]
 
 # state-reaching prefixes: (prefix, start state, last start tag, cdata)
 D = ("data", None, False)
@@ -133,7 +133,9 @@ def _entity_atoms():
 
 
 def check_case(case, want_transitions=None):
-    text, state, last, cdata = case["text"], case["state"], case.get("last"), bool(case.get("cdata"))
+    text, state, last, cdata = case["text"], case["state"], case.get("last"), case.get("cdata")
+    h5_cdata = "nons" if cdata == "nons" else bool(cdata)      # "nons": CDATA sections not allowed, HTML elements carry no namespace
+    cdata = cdata is True or cdata == 1
     tr = [] if want_transitions is not None else None
     want = ref_tokens(text, state, last, cdata, transitions=tr)
     if tr:
@@ -144,7 +146,7 @@ def check_case(case, want_transitions=None):
         if case.get("reads"):
             # the same characters through a text stream that returns short reads (the tokenizer must not care how its input arrives)
             src = _ShortReads(text, case["reads"])
-        got = h5.tokenize(src, state, last, cdata)
+        got = h5.tokenize(src, state, last, h5_cdata)
     except Exception as e:
         return Verdict("fail", "html5lib tokenizer raised %r on %s" % (e, short(text)), "exception:" + type(e).__name__,
                        nontrivial=nontrivial)
